@@ -179,6 +179,15 @@ CHECKS = {
          "Finite part alphabets (listed in the evidence rule); files of 1-3 rules; four string-opacity defects of the regex/split "
          "parser are listed known findings matched by metacharacter class; TLC and the harness canonicaliser are trusted.",
          "TLA+ grammar generator with exact AST oracle; TLC-enumerated files parsed by the real parser (production-combination cover)"),
+ "C05": ("exploration",
+         "GrlText.tla is the systematic input space (token soups over a 51-token lexical alphabet; every single mutation - truncation, "
+         "deletion, duplication, swap, insertion - of 8 valid seed texts; prefix chains up to 4 KiB; simulated multi-step mutations); TLC "
+         "enumerates it and every input is fed to the ten entry points in child processes under a 120 s watchdog. The oracle is trivial "
+         "(a value or an error), so the level is exploration.",
+         "DESIGN.md §4 C05, §7",
+         "Token-level inputs only: arbitrary raw bytes are NOT generated (a TLA+ model does not produce them usefully); one known "
+         "finding (panic inside the third-party regex crate) is matched by signature.",
+         "TLC-enumerated input space (token soups and grammar-aware mutations) executed against the real parsers in watchdog child processes"),
 }
 
 NOT_YET = "check not built yet in this round (see DESIGN.md §9 build order); no claim is made"
